@@ -39,6 +39,10 @@ def snap_econ(model) -> dict:
         "arbDelta": _arr(model.prod_cap_delta_arbitrary),
         "deliv": _arr(getattr(model, "_verif_last_delivery", None)),
         "in_shortage": bool(model.in_shortage),
+        "ordersTot": _arr(getattr(model, "_intermediate_demand_tot", None)),
+        "fdTot": _arr(getattr(model, "_final_demand_tot", None)),
+        "rebTot": _arr(getattr(model, "_rebuild_demand_tot", None)),
+        "rebProdTot": _arr(getattr(model, "_rebuild_prod_tot", None)),
     }
 
 
